@@ -451,6 +451,12 @@ def _mode_labels(chk):
                       why=f"the array contracted with the score argument {P} is not selected by {P}.mode: a score array naming a mode the model does not have is no longer "
                           f"refused (the contraction silently drops the unknown label)")
     chk.require(n >= 3, f"GUARD.modes.select: only {n} score contractions found in the _inverse_transform_algorithm implementations")
+    # the same for the public entry points: a per-mode entry (norms) that meets the given scores arithmetically is selected
+    # by the scores' own labels first - plain xarray arithmetic inner-joins an unknown mode away BEFORE the algorithm's own
+    # selection can refuse it (rule shared with C03.MIRROR.modesel)
+    from . import c03 as _c03
+    from .c01 import _Relabel
+    _c03._modesel(_Relabel(chk, "MIRROR.modesel", "GUARD.modes.select.entry"))
 
 
 def _src(ff, e):
